@@ -107,6 +107,12 @@ CHECKS: dict[str, tuple[str, str, str, str, str]] = {
             "declarative table written from api.proto (presence flags read from the .proto text) and the statement.",
             "runtime monitoring: wire monitor (independent decode at the simulated device) vs table-driven expected request, exhaustive argument subsets",
             "DESIGN.md §4 C15"),
+    "C16": ("S", "exploration",
+            "1-4 concurrent Bluetooth operations on a live simulated session with scripted reply orders; recorded arrival/completion history is "
+            "judged per operation by a matching model (address, handle, type), with exact completion and timeout instants, the DISCONNECT-before-"
+            "timeout rule, and leftover probes (matching traffic after the end must reach no callback; handler table holds only documented survivors).",
+            "runtime monitoring: recorded BLE operation history vs per-operation matching model + post-completion leftover probes",
+            "DESIGN.md §4 C16"),
 }
 
 NOT_YET = {
